@@ -39,6 +39,7 @@ CHECKS = {
              "thorough": {"checks": 300000, "shards": 8, "timeout": "60m"}},
             {"test": "TestC08_Session", "quick": {"checks": 1500, "timeout": "10m"},
              "thorough": {"checks": 20000, "shards": 4, "timeout": "60m"}},
+            {"test": "TestC08_LongStall", "quick": {"checks": 2, "timeout": "10m", "shrinktime": "10s"}, "thorough": {"checks": 12, "timeout": "20m", "shrinktime": "10s"}},
             {"test": "FuzzC08", "thorough": {"fuzz": "120s", "timeout": "10m"}},
         ],
     },
